@@ -216,7 +216,7 @@ class Report:
             'violations': len(fresh),
         }
         os.makedirs(EVID_DIR, exist_ok=True)
-        if replay_filter is None:
+        if replay_filter is None and not os.environ.get('VERIF_NO_EVIDENCE'):
             with open(os.path.join(EVID_DIR, f'{self.pid}.json'), 'wt', encoding='utf-8') as f:
                 json.dump(ev, f, indent=1, sort_keys=False)
         # ---- console
